@@ -9,7 +9,7 @@ use brc20_prog::verif::Decode;
 use serde_json::{json, Value};
 use std::collections::BTreeMap;
 
-fn corpus() -> Vec<(String, Vec<Step>)> {
+pub fn corpus() -> Vec<(String, Vec<Step>)> {
     let mut v = Vec::new();
     let sc = super::c02::scenarios("quick");
     let alpha = &sc[0].alphabet;
